@@ -21,6 +21,7 @@ func runC06(c *Ctx) {
 	c.U0()
 	c.ruleR06a("R06a error-propagation")
 	c.ruleR06b("R06b positions-not-fabricated")
+	c.ruleR06c("R06c max-selection")
 }
 
 func isErrorType(t types.Type) bool { return ssax.NamedIs(t, "parsley", "Error") }
@@ -464,4 +465,196 @@ func helperReturnsParam(fn *ssa.Function, i int) bool {
 		}
 	}
 	return false
+}
+
+// ---------------------------------------------------------------------------
+// R06c: max-selection. Wherever an accumulated error is replaced by a candidate (a nested call's error, or the
+// argument of Context.SetError), every path to the replacement has established that the accumulator is nil or that
+// the candidate's position is not before the accumulator's. Otherwise the recorded "furthest" error can move backwards.
+
+type accSite struct {
+	at    ssa.Instruction // visiting this instruction on a path means the replacement happens
+	cand  ssa.Value
+	prevs []ssa.Value
+	where string
+}
+
+func isPosCallOn(v ssa.Value, p *pathState, targets []ssa.Value) bool {
+	cl, ok := v.(*ssa.Call)
+	if !ok || !cl.Call.IsInvoke() || cl.Call.Method.Name() != "Pos" || len(cl.Call.Args) != 0 {
+		return false
+	}
+	r := p.resolve(cl.Call.Value)
+	for _, t := range targets {
+		if r == p.resolve(t) || cl.Call.Value == t {
+			return true
+		}
+	}
+	return false
+}
+
+func (c *Ctx) accSites(fn *ssa.Function) []accSite {
+	var out []accSite
+	isCandidate := func(v ssa.Value) bool {
+		v = ssax.Strip(v)
+		if e, ok := v.(*ssa.Extract); ok && e.Index == 2 {
+			if cl, ok := e.Tuple.(*ssa.Call); ok && ssax.IsParseCall(cl) {
+				return true
+			}
+		}
+		if p, ok := v.(*ssa.Parameter); ok && isErrorType(p.Type()) && fn.Name() == "SetError" {
+			return true
+		}
+		return false
+	}
+	for _, b := range fn.Blocks {
+		for _, in := range b.Instrs {
+			switch x := in.(type) {
+			case *ssa.Phi:
+				if !isErrorType(x.Type()) {
+					continue
+				}
+				for i, e := range x.Edges {
+					if !isCandidate(e) {
+						continue
+					}
+					var prevs []ssa.Value
+					for j, o := range x.Edges {
+						if j != i && o != e && !ssax.IsNilConst(o) {
+							prevs = append(prevs, o)
+						}
+					}
+					pred := b.Preds[i]
+					if len(prevs) == 0 || len(pred.Succs) != 1 {
+						continue
+					}
+					out = append(out, accSite{at: pred.Instrs[len(pred.Instrs)-1], cand: e, prevs: prevs, where: "assignment to the accumulated error"})
+				}
+			case *ssa.Store:
+				fa, ok := x.Addr.(*ssa.FieldAddr)
+				if !ok || !isErrorType(x.Val.Type()) || !isCandidate(x.Val) {
+					continue
+				}
+				fv := fieldVar(fa)
+				var prevs []ssa.Value
+				for _, bb := range fn.Blocks {
+					for _, i2 := range bb.Instrs {
+						if u, ok := i2.(*ssa.UnOp); ok && u.Op == token.MUL {
+							if fa2, ok := u.X.(*ssa.FieldAddr); ok && fieldVar(fa2) == fv && fa2.X == fa.X {
+								prevs = append(prevs, u)
+							}
+						}
+					}
+				}
+				if len(prevs) > 0 {
+					out = append(out, accSite{at: x, cand: x.Val, prevs: prevs, where: "store to the accumulated error " + fv.Name()})
+				}
+			}
+		}
+	}
+	return out
+}
+
+// helperAccSites: in a helper called as h(acc, cand, ...) the returns that hand back the candidate parameter.
+func (c *Ctx) helperAccSites(h *ssa.Function) []accSite {
+	cand, acc := -1, -1
+	for _, e := range c.P.Callers(h) {
+		if e.Site == nil || e.Site.Common().StaticCallee() != h {
+			continue
+		}
+		for i, a := range e.Site.Common().Args {
+			if !isErrorType(a.Type()) {
+				continue
+			}
+			s := ssax.Strip(a)
+			if ex, ok := s.(*ssa.Extract); ok && ex.Index == 2 {
+				if cl, ok := ex.Tuple.(*ssa.Call); ok && ssax.IsParseCall(cl) {
+					cand = i
+					continue
+				}
+			}
+			switch s.(type) {
+			case *ssa.Phi, *ssa.UnOp:
+				acc = i
+			}
+		}
+	}
+	if cand < 0 || acc < 0 || cand >= len(h.Params) || acc >= len(h.Params) {
+		return nil
+	}
+	var out []accSite
+	for _, r := range ssax.Returns(h) {
+		if len(r.Results) == 1 && ssax.Strip(r.Results[0]) == ssa.Value(h.Params[cand]) {
+			out = append(out, accSite{at: r, cand: h.Params[cand], prevs: []ssa.Value{h.Params[acc]}, where: "return of the candidate error"})
+		}
+	}
+	return out
+}
+
+func (c *Ctx) ruleR06c(rule string) {
+	c.R.Rule(rule, "an accumulated error is replaced by a candidate only on paths that established 'accumulator is nil' or 'candidate.Pos() >= accumulator.Pos()' (sequence, Any, Choice, Context.SetError, and helpers they delegate to)", 3)
+	var fns []*ssa.Function
+	fns = append(fns, c.S.Sorted(c.S.Parser)...)
+	if f := c.P.Func("(*parsley.Context).SetError"); f != nil && !c.S.Parser[f] {
+		fns = append(fns, f)
+	}
+	for _, fn := range fns {
+		if fn.Synthetic != "" {
+			continue
+		}
+		sites := c.accSites(fn)
+		if !ssax.IsParserSig(fn.Signature) && fn.Signature.Results().Len() == 1 && isErrorType(fn.Signature.Results().At(0).Type()) {
+			sites = append(sites, c.helperAccSites(fn)...)
+		}
+		if len(sites) == 0 {
+			continue
+		}
+		byInstr := map[ssa.Instruction][]accSite{}
+		for _, s := range sites {
+			byInstr[s.at] = append(byInstr[s.at], s)
+		}
+		badAt := map[ssa.Instruction]string{}
+		okAt := map[ssa.Instruction]int{}
+		walkPaths(fn, func(in ssa.Instruction) bool { return len(byInstr[in]) > 0 }, func(p *pathState, in ssa.Instruction) {
+			for _, s := range byInstr[in] {
+				established := false
+				for _, pv := range s.prevs {
+					if p.eval(pv) == nsNil {
+						established = true
+					}
+				}
+				for cond, truth := range p.bools {
+					op, x, y, isCmp := ssax.CmpOp(cond)
+					if !isCmp {
+						continue
+					}
+					if !truth {
+						op = ssax.Negate(op)
+					}
+					cands := []ssa.Value{s.cand}
+					switch {
+					case isPosCallOn(x, p, cands) && isPosCallOn(y, p, s.prevs) && (op == token.GEQ || op == token.GTR):
+						established = true
+					case isPosCallOn(x, p, s.prevs) && isPosCallOn(y, p, cands) && (op == token.LEQ || op == token.LSS):
+						established = true
+					}
+				}
+				if established {
+					okAt[in]++
+				} else if badAt[in] == "" {
+					badAt[in] = s.where
+				}
+			}
+		})
+		for _, s := range sites {
+			name := c.name(fn)
+			if w, bad := badAt[s.at]; bad {
+				c.R.Violation(rule, name+" replaces the accumulated error without comparing positions", name, c.P.InstrPos(s.at), w+": on some path the accumulated error is replaced although neither 'it is nil' nor 'the candidate is at least as far' has been established — the recorded error can move backwards, and the reported position falls short of the furthest failure")
+				delete(badAt, s.at)
+			} else if okAt[s.at] > 0 {
+				c.R.Hold(rule, name+" @"+c.P.InstrPos(s.at), fmt.Sprintf("%s: %d path(s), each with accumulator nil or candidate not before it", s.where, okAt[s.at]))
+				okAt[s.at] = 0
+			}
+		}
+	}
 }
